@@ -70,6 +70,7 @@ type Exec struct {
 	inlined         map[string]int
 	usedContracts   map[string]bool
 	assignAll       bool
+	qcount          int
 	solv            *Solvers
 }
 
@@ -674,12 +675,12 @@ func (x *Exec) binTerm(st *State, op token.Token, a, b Term, pos string) Term {
 		case token.MUL:
 			return Mul(a, b)
 		case token.QUO:
-			if pos != "" {
+			if pos != "" && x.c.Config["divzero"] != "off" {
 				x.addObl(st, "safe", "divzero", Ne(b, IntLit(0)), pos, "integer division by zero")
 			}
 			return QuoInt(a, b)
 		case token.REM:
-			if pos != "" {
+			if pos != "" && x.c.Config["divzero"] != "off" {
 				x.addObl(st, "safe", "divzero", Ne(b, IntLit(0)), pos, "integer division by zero")
 			}
 			return RemInt(a, b)
